@@ -4,6 +4,11 @@ import os
 
 ROOT = os.path.dirname(os.path.dirname(os.path.abspath(__file__)))
 claims = json.load(open(os.path.join(ROOT, "tools", "claims.json")))
+_cd = os.path.join(ROOT, "tools", "claims.d")
+if os.path.isdir(_cd):  # one file per property (written by whoever builds that property's check)
+    for _f in sorted(os.listdir(_cd)):
+        if _f.endswith(".json"):
+            claims.update(json.load(open(os.path.join(_cd, _f))))
 props = [json.loads(l) for l in open(os.path.join(ROOT, "properties.jsonl"))]
 checks, na = [], []
 for p in props:
